@@ -12,53 +12,71 @@
        i32, i64, u8, u16, u32, u64, the types T with `impl From<T> for Value`; a negative value
        is `-` followed by the suffixed literal of its magnitude (`-128i8`), so unsigned types
        have no negative values (`-0u8` does not compile); the text has no suffix,
-     floats `-`? s where s is a literal common to Rust and JSON (no leading zero, a fraction
-       or an exponent) that the implementation re-spells as itself: fmt_f64 s = Some s
-       (a float passes through f64, so only for those is "the same literal text" defined),
+     floats `-`? s suffix? : a float literal of ANY spelling s (`1.50`, `100.0`, `0.0`, `1e5`,
+       `1E+3`, `007.5`, and, with a suffix, plain digits: `123456792f32`), suffix f32 or f64 or
+       none (f64).  A float literal passes through its float type, so its JSON text is not the
+       literal text but the spelling r the float printer gives to the float it denotes:
+       [DFloat neg s sfx r] is in the domain when fmt_float (type of sfx) s = Some r and r is an
+       unsigned JSON number; value_of and text use r.  (-0.0 is the number -0.)  The literals
+       that are re-spelt as themselves (r = s: 1.5, 0.1, 1e21, 1e-7) are the special case in
+       which the text is the literal text (C19_self_respelt_float),
      strings and keys of Unicode scalar values, true, false, null,
      keys written as a string literal, a parenthesised string literal, a variable of type
        &str or a parenthesised variable ([env] gives the variables' contents),
      arrays and objects nested to any depth, each with or without a trailing comma,
      duplicate keys allowed.
-   [fmt_f64] (the f64 -> spelling dependency: json-number / lexical) and [env] are universally
-   quantified: the theorems hold for every such function. *)
+   [fmt_float] (the float -> spelling dependency: json-number / lexical, composed with rustc's
+   correctly rounded reading of the literal) and [env] are universally quantified: the theorems
+   hold for every such function; the executable reference of the run is
+   Model/MacroFloat.lexical_float (Proofs/MacroFloatExamples.v). *)
 From JsonSyntax Require Import Base.Prelude Base.Value Base.Unicode Model.Macro
   Spec.MacroDoc Spec.Minimal Spec.Grammar Model.EntryPoints Proofs.MacroProofs.
 
 (* the rule model builds the denoted value *)
-Theorem C19_expand : forall fmt_f64 env d, dom fmt_f64 env d ->
-  exists fuel, expand fmt_f64 env fuel (tokens d) = Some (value_of d).
+Theorem C19_expand : forall fmt_float env d, dom fmt_float env d ->
+  exists fuel, expand fmt_float env fuel (tokens d) = Some (value_of d).
 Proof. exact expand_tokens. Qed.
 
 (* the parser model returns the denoted value on the corresponding text *)
-Theorem C19_text : forall fmt_f64 env d, dom fmt_f64 env d ->
+Theorem C19_text : forall fmt_float env d, dom fmt_float env d ->
   exists m, parse_str (text d) = Ok (value_of d, m).
 Proof. exact parse_text. Qed.
 
+(* the special case of the float literals that are re-spelt as themselves: the JSON text is
+   the literal text (the original reading of the property for floats) *)
+Theorem C19_self_respelt_float : forall fmt_float env neg s,
+  float_lit s -> fmt_float FT64 s = Some s ->
+  dom fmt_float env (DFloat neg s None s) /\
+  text (DFloat neg s None s) = (if neg then 0x2D :: s else s) /\
+  exists fuel m, expand fmt_float env fuel (if neg then [TPunct PMinus; TLit (LFloat s None)] else [TLit (LFloat s None)])
+                   = Some (VNum (if neg then 0x2D :: s else s))
+                 /\ parse_str (if neg then 0x2D :: s else s) = Ok (VNum (if neg then 0x2D :: s else s), m).
+Proof. exact self_respelt_float. Qed.
+
 (* hence both sides agree *)
-Theorem C19 : forall fmt_f64 env d, dom fmt_f64 env d ->
-  exists fuel m, expand fmt_f64 env fuel (tokens d) = Some (value_of d)
+Theorem C19 : forall fmt_float env d, dom fmt_float env d ->
+  exists fuel m, expand fmt_float env fuel (tokens d) = Some (value_of d)
                  /\ parse_str (text d) = Ok (value_of d, m).
 Proof. exact macro_equals_parse. Qed.
 
 (* entries in written order, duplicates preserved; items in written order *)
-Theorem C19_entries_in_written_order : forall fmt_f64 env l tc, dom fmt_f64 env (DObj l tc) ->
-  exists fuel, expand fmt_f64 env fuel (tokens (DObj l tc))
+Theorem C19_entries_in_written_order : forall fmt_float env l tc, dom fmt_float env (DObj l tc) ->
+  exists fuel, expand fmt_float env fuel (tokens (DObj l tc))
                = Some (VObj (map (fun e => (dkey e, value_of (dval e))) l)).
 Proof. exact object_entries_in_written_order. Qed.
 
-Theorem C19_items_in_written_order : forall fmt_f64 env l tc, dom fmt_f64 env (DArr l tc) ->
-  exists fuel, expand fmt_f64 env fuel (tokens (DArr l tc)) = Some (VArr (map value_of l)).
+Theorem C19_items_in_written_order : forall fmt_float env l tc, dom fmt_float env (DArr l tc) ->
+  exists fuel, expand fmt_float env fuel (tokens (DArr l tc)) = Some (VArr (map value_of l)).
 Proof. exact array_items_in_written_order. Qed.
 
 (* with or without the trailing comma *)
-Theorem C19_trailing_comma_irrelevant : forall fmt_f64 env d, dom fmt_f64 env d ->
+Theorem C19_trailing_comma_irrelevant : forall fmt_float env d, dom fmt_float env d ->
   forall d', (match d, d' with
               | DArr l _, DArr l' _ => l = l'
               | DObj l _, DObj l' _ => l = l'
               | _, _ => False
               end) ->
-  exists fuel v, expand fmt_f64 env fuel (tokens d) = Some v /\ expand fmt_f64 env fuel (tokens d') = Some v.
+  exists fuel v, expand fmt_float env fuel (tokens d) = Some v /\ expand fmt_float env fuel (tokens d') = Some v.
 Proof. exact trailing_comma_irrelevant. Qed.
 
 (* the corresponding text is the minimal serialisation of the denoted value, which is well formed *)
@@ -70,8 +88,8 @@ Theorem C19_int_spelling : forall z, jnum (dec_of_Z z) /\ Z_of_dec (dec_of_Z z) 
 Proof. exact int_spelling. Qed.
 
 (* fuel only bounds the recursion: more fuel never changes an answer *)
-Theorem C19_fuel_monotone : forall fmt_f64 env f f' ts v,
-  (f <= f')%nat -> expand fmt_f64 env f ts = Some v -> expand fmt_f64 env f' ts = Some v.
+Theorem C19_fuel_monotone : forall fmt_float env f f' ts v,
+  (f <= f')%nat -> expand fmt_float env f ts = Some v -> expand fmt_float env f' ts = Some v.
 Proof. exact expand_fuel_monotone. Qed.
 
 (* ---------- non-vacuity: a concrete document ---------- *)
@@ -79,20 +97,32 @@ Proof. exact expand_fuel_monotone. Qed.
    Proofs/MacroFloatExamples.v; this file stays free of the Flocq libraries) *)
 Definition ex_env (x : list N) : option (list N) :=
   if str_eqb x (s2l "K0") then Some (s2l "dup") else None.
-(* a float dependency that re-spells 1.5 and 1e21 as themselves, 100.0 as 100, and -- as
-   lexical-write-float 1.0.6 really does -- 2.675e21 as 2.6750000000000003e21 *)
-Definition ex_fmt (s : list N) : option (list N) :=
-  if str_eqb s (s2l "100.0") then Some (s2l "100")
-  else if str_eqb s (s2l "2.675e21") then Some (s2l "2.6750000000000003e21")
-  else Some s.
+(* a float dependency that re-spells 1.5 and 1e21 as themselves, 100.0 as 100, 1.50 as 1.5,
+   0.0 as 0, 1e5 as 100000, the f32 literals 123456792f32 as 123456790 and 2147483648f32 as
+   2147483600, and -- as lexical-write-float 1.0.6 really does -- 2.675e21 as
+   2.6750000000000003e21 *)
+Definition ex_fmt (t : fty) (s : list N) : option (list N) :=
+  match t with
+  | FT64 =>
+      if str_eqb s (s2l "100.0") then Some (s2l "100")
+      else if str_eqb s (s2l "1.50") then Some (s2l "1.5")
+      else if str_eqb s (s2l "0.0") then Some (s2l "0")
+      else if str_eqb s (s2l "1e5") then Some (s2l "100000")
+      else if str_eqb s (s2l "2.675e21") then Some (s2l "2.6750000000000003e21")
+      else Some s
+  | FT32 =>
+      if str_eqb s (s2l "123456792") then Some (s2l "123456790")
+      else if str_eqb s (s2l "2147483648") then Some (s2l "2147483600")
+      else Some s
+  end.
 
 (* json!({ "dup": [-3, -1.5, null, [], {}, [[true,],],], ("dup"): false, K0: "x\n", (K0): 1e21, "e": {"n": -2147483648,}, }) *)
 Definition ex_doc : doc :=
-  DObj [ (KLit, s2l "dup", DArr [DInt None (-3); DFloat true (s2l "1.5"); DNull; DArr [] false; DObj [] false;
+  DObj [ (KLit, s2l "dup", DArr [DInt None (-3); DFloat true (s2l "1.5") None (s2l "1.5"); DNull; DArr [] false; DObj [] false;
                                  DArr [DArr [DBool true] true] true] true);
          (KParen, s2l "dup", DBool false);
          (KVar (s2l "K0"), s2l "dup", DStr [0x78; 0x0A]);
-         (KParenVar (s2l "K0"), s2l "dup", DFloat false (s2l "1e21"));
+         (KParenVar (s2l "K0"), s2l "dup", DFloat false (s2l "1e21") None (s2l "1e21"));
          (KLit, s2l "e", DObj [(KLit, s2l "n", DInt None (-2147483648))] true) ] true.
 
 Example C19_example_expand :
@@ -103,6 +133,22 @@ Example C19_example_text :
   text ex_doc = s2l "{""dup"":[-3,-1.5,null,[],{},[[true]]],""dup"":false,""dup"":""x\n"",""dup"":1e21,""e"":{""n"":-2147483648}}"
   /\ match parse_str (text ex_doc) with Ok (v, _) => value_eqb v (value_of ex_doc) | _ => false end = true.
 Proof. vm_compute. split; reflexivity. Qed.
+
+(* float literals of any spelling: json!([-0.0, 0.0, 1.50, 100.0, 1e5, -1.50, 123456792f32, 2147483648f32, 1.5f64, {"z": -0.0,}]) *)
+Definition ex_floats : doc :=
+  DArr [DFloat true (s2l "0.0") None (s2l "0"); DFloat false (s2l "0.0") None (s2l "0");
+        DFloat false (s2l "1.50") None (s2l "1.5"); DFloat false (s2l "100.0") None (s2l "100");
+        DFloat false (s2l "1e5") None (s2l "100000"); DFloat true (s2l "1.50") None (s2l "1.5");
+        DFloat false (s2l "123456792") (Some FT32) (s2l "123456790");
+        DFloat false (s2l "2147483648") (Some FT32) (s2l "2147483600");
+        DFloat false (s2l "1.5") (Some FT64) (s2l "1.5");
+        DObj [(KLit, s2l "z", DFloat true (s2l "0.0") None (s2l "0"))] true] false.
+
+Example C19_example_any_float_spelling :
+  expand ex_fmt ex_env 64 (tokens ex_floats) = Some (value_of ex_floats)
+  /\ text ex_floats = s2l "[-0,0,1.5,100,100000,-1.5,123456790,2147483600,1.5,{""z"":-0}]"
+  /\ match parse_str (text ex_floats) with Ok (v, _) => value_eqb v (value_of ex_floats) | _ => false end = true.
+Proof. vm_compute. repeat split; reflexivity. Qed.
 
 (* suffixed integer literals at the bounds of their types:
    json!([18446744073709551615u64, 9223372036854775808u64, -9223372036854775808i64, 255u8, -128i8, {"k": 65535u16, ("k"): -32768i16, "k": 4294967295u32}]) *)
@@ -135,24 +181,27 @@ Example C19_minus_zero_is_outside :
   /\ match parse_str (s2l "-0") with Ok (v, _) => value_eqb v (VNum (s2l "-0")) | _ => false end = true.
 Proof. vm_compute. split; reflexivity. Qed.
 
-(* a float literal that is not re-spelt as itself builds a different number than its text
-   parses to: 100.0 by design (trim_floats), 2.675e21 because the dependency's writer is not
-   shortest there (known finding C19-lexical-not-shortest) *)
+(* a float literal that is not re-spelt as itself builds a different number than its OWN
+   spelling parses to (which is why the JSON text of a float literal is the printer's
+   spelling): 100.0 by design (trim_floats), 2.675e21 because the dependency's writer is not
+   shortest there (known finding C19-lexical-not-shortest: there the implementation's spelling
+   differs from the reference spelling) *)
 Example C19_float_respelling_is_needed :
-  expand ex_fmt ex_env 4 [TLit (LFloat (s2l "2.675e21"))] = Some (VNum (s2l "2.6750000000000003e21"))
+  expand ex_fmt ex_env 4 [TLit (LFloat (s2l "2.675e21") None)] = Some (VNum (s2l "2.6750000000000003e21"))
   /\ match parse_str (s2l "2.675e21") with Ok (v, _) => value_eqb v (VNum (s2l "2.675e21")) | _ => false end = true
-  /\ expand ex_fmt ex_env 4 [TLit (LFloat (s2l "100.0"))] = Some (VNum (s2l "100")).
+  /\ expand ex_fmt ex_env 4 [TLit (LFloat (s2l "100.0") None)] = Some (VNum (s2l "100")).
 Proof. vm_compute. repeat split; reflexivity. Qed.
 
 (* there is no From<f64>: a parenthesised float is not a json! literal (does not compile) *)
 Example C19_parenthesised_float_is_rejected :
-  expand ex_fmt ex_env 4 [TGroup Paren [TLit (LFloat (s2l "1.5"))]] = None
+  expand ex_fmt ex_env 4 [TGroup Paren [TLit (LFloat (s2l "1.5") None)]] = None
   /\ expand ex_fmt ex_env 4 [TGroup Paren [TLit (LInt 5 None)]] = Some (VNum (s2l "5")).
 Proof. vm_compute. split; reflexivity. Qed.
 
 Print Assumptions C19_expand.
 Print Assumptions C19_text.
 Print Assumptions C19.
+Print Assumptions C19_self_respelt_float.
 Print Assumptions C19_entries_in_written_order.
 Print Assumptions C19_items_in_written_order.
 Print Assumptions C19_trailing_comma_irrelevant.
@@ -161,6 +210,7 @@ Print Assumptions C19_int_spelling.
 Print Assumptions C19_fuel_monotone.
 Print Assumptions C19_example_expand.
 Print Assumptions C19_example_text.
+Print Assumptions C19_example_any_float_spelling.
 Print Assumptions C19_example_suffixed_integers.
 Print Assumptions C19_out_of_range_integers_are_rejected.
 Print Assumptions C19_minus_zero_is_outside.
